@@ -9,6 +9,7 @@ pub mod c08;
 pub mod c09;
 pub mod c13;
 pub mod c14;
+pub mod c10;
 pub mod c12;
 pub mod c15;
 pub mod c16;
@@ -25,6 +26,7 @@ pub fn lookup(prop: &str) -> Option<fn(&Ctx)> {
         "C07" => c07::run,
         "C08" => c08::run,
         "C09" => c09::run,
+        "C10" => c10::run,
         "C12" => c12::run,
         "C13" => c13::run,
         "C14" => c14::run,
